@@ -214,7 +214,7 @@ def _compute(tier, d, res, log):
                             res["diag"][key]["configuration"] = _config(m)
                 continue
             if lem == "loops_ok":
-                body = (hdr + "Definition bad := Eval vm_compute in (find (fun c => negb (check_loops flags_plain (fst c) (snd c))) loop_cases, "
+                body = (hdr + "From Coq Require Import ZArith.\nOpen Scope Z_scope.\nDefinition bad := Eval vm_compute in (find (fun c => negb (check_loops flags_plain (fst c) (snd c))) loop_cases, "
                         "find (fun c => negb (check_loops flags_rooted (fst c) (snd c))) loop_cases).\nPrint bad.\n")
                 open(os.path.join(d, "D_loops.v"), "w").write(body)
                 rc, out, err, dt = _coqc(d, "D_loops.v", timeout=2400)
